@@ -54,7 +54,10 @@ TRANS_RULE = (" transport-schedules: 2-4 goroutines calling Dispatch / AddSubscr
 RACE_STAGE = {"kind": "race", "name": "race-stress", "dur": {"quick": "3s", "thorough": "60s"}}
 
 PROPS = {
-    "C01": {"binaries": ["verifh", "verifs"], "stages": [HUB_STAGE, TRANS_STAGE], "rule": HUB_RULE + TRANS_RULE, "trusted": HUB_TRUST + ["matching itself: C05/C11; token verification: C03"], "assumptions": []},
+    "C01": {"binaries": ["verifh", "verifs"],
+            "stages": [HUB_STAGE, TRANS_STAGE, {"kind": "cases", "name": "index", "driver": "C05", "n": {"quick": 800, "thorough": 10000}}],
+            "rule": HUB_RULE + TRANS_RULE + " index: the operation histories of C05 against the real SubscriberList (private bit, claims, topics with the delimiter / escape characters): "
+                    "who is handed a private update is decided there.", "trusted": HUB_TRUST + ["matching itself: C05/C11; token verification: C03"], "assumptions": []},
     "C09": {"stages": [HUB_STAGE], "rule": HUB_RULE + " (kill -9 crash points are not exercised by this stage: restart here is a graceful stop)",
             "trusted": HUB_TRUST + ["process death and power loss: bbolt's commit protocol is trusted, not exercised"], "assumptions": []},
     "C15": {"binaries": ["verifh", "verifs"], "stages": [HUB_STAGE, TRANS_STAGE], "rule": HUB_RULE + TRANS_RULE, "trusted": HUB_TRUST, "assumptions": []},
